@@ -578,6 +578,8 @@ func knownShapes(s string, in *parsed, keep bool) shapes {
 var reLeadWSRef = regexp.MustCompile(`^&#(0*(9|10|13|32)|[xX]0*(9|[aAdD]|20));`)
 var reTrailWSRef = regexp.MustCompile(`&#(0*(9|10|13|32)|[xX]0*(9|[aAdD]|20));$`)
 
+var reAnyWSRef = regexp.MustCompile(`&#(0*(9|10|13|32)|[xX]0*(9|[aAdD]|20));`)
+
 func startsWS(raw string) bool {
 	return raw != "" && (isXMLSpace(raw[0]) || reLeadWSRef.MatchString(raw))
 }
@@ -632,7 +634,7 @@ func n05Runs(in *parsed, keep bool) map[int]bool {
 					// section starts with white space; otherwise the flag stays set
 					// (a white-space-only u may vanish altogether with the flag left set)
 					flagged = true
-					for m := j + 1; m < k && !allSpace(u.data); m++ {
+					for m := j + 1; m < k && !allSpace(reAnyWSRef.ReplaceAllString(u.data, " ")); m++ {
 						if toks[m].kind == tCDATA {
 							if toks[m].data != "" && isXMLSpace(toks[m].data[0]) {
 								flagged = false
